@@ -591,6 +591,14 @@ Inductive op :=
 | OGet (path : string)                           (* root.get(path) *)
 | OModelSet (path : string) (v : pyval)          (* model.set_parameter(path, v) *)
 | OModelGet (path : string)                      (* model.get_parameter(path) *)
+| OReAdd (src : string) (dst : option string)    (* p = root.get(src); par = root | root.get(dst); par.add(p):
+                                                    an EXISTING object is offered to a map.  The refused cases
+                                                    (duplicate key in par, par not a map) are modelled: nothing
+                                                    changes, in particular not p's parent / extended key, which
+                                                    the model reads from p's position.  An ACCEPTED re-add makes
+                                                    one object a member of two maps; that is outside this tree
+                                                    model and is flagged [OOutside] (the harness ends a sequence
+                                                    there). *)
 | OInspect (path : string).                      (* p = root.get(path); what p reports through its public
                                                     properties: read_only, display_priority, and
                                                     min_value / max_value | min_si / max_si / type | options | unittype *)
@@ -601,7 +609,8 @@ Inductive out :=
 | OParam (id : nat)                (* a parameter object, named by its identity *)
 | OValue (v : pyval)
 | OMapKeys (ks : list string)      (* the dict of a map, as its keys in iteration order *)
-| ODecl (ro : bool) (prio : Q) (c : option constr).   (* a parameter's declaration (None: a map) *)
+| ODecl (ro : bool) (prio : Q) (c : option constr)    (* a parameter's declaration (None: a map) *)
+| OOutside.                                           (* accepted, but the result is outside the model *)
 
 Definition psegs (pp : option string) : list string :=
   match pp with None => [] | Some s => segments s end.
@@ -636,6 +645,19 @@ Definition step_root (q : quirks) (id : nat) (root : param) (o : op) : param * o
       | Val (Leaf _ _ _ _ v) => (root, OValue v)
       | Val (Map _ ch) => (root, OMapKeys (map pkey ch))
       | Raise e => (root, ORaise e)
+      end
+  | OReAdd src dst =>
+      match get root src with
+      | Raise e => (root, ORaise e)
+      | Val p =>
+          match node_at root (psegs dst) with
+          | None => (root, ORaise KeyError)
+          | Some par =>
+              match map_add p par with
+              | Raise e => (root, ORaise e)          (* refused: duplicate key (ValueError), not a map *)
+              | Val _ => (root, OOutside)
+              end
+          end
       end
   | OInspect path =>
       match get root path with
@@ -727,6 +749,19 @@ Definition step_root_lit (q : quirks) (id : nat) (root : param) (o : op) : param
       | Val (Leaf _ _ _ _ v) => (root, OValue v)
       | Val (Map _ ch) => (root, OMapKeys (map pkey ch))
       | Raise e => (root, ORaise e)
+      end
+  | OReAdd src dst =>
+      match py_get root src with
+      | Raise e => (root, ORaise e)
+      | Val p =>
+          match py_parent root dst with
+          | Raise e => (root, ORaise e)
+          | Val par =>
+              match map_add p par with
+              | Raise e => (root, ORaise e)
+              | Val _ => (root, OOutside)
+              end
+          end
       end
   | OInspect path =>
       match py_get root path with
@@ -889,6 +924,7 @@ Definition out_eqb (a b : out) : bool :=
   | OParam x, OParam y => Nat.eqb x y
   | OValue x, OValue y => pyval_eqb x y
   | OMapKeys x, OMapKeys y => strs_eqb x y
+  | OOutside, OOutside => true
   | ODecl r p c, ODecl r' p' c' =>
       Bool.eqb r r' && Qeq_bool p p' &&
       match c, c' with
